@@ -882,6 +882,9 @@ func evalProc(in *Input, r *Result, p *spec.Proc, files map[string][]byte,
 					files[path] = c
 					if dirOut[op] {
 						r.Files[path+"/data"] = c
+						for k := 1; k <= 2; k++ {
+							r.Files[fmt.Sprintf("%s/aa_part%d", path, k)] = vproto.DirPart(p.Name, op, k)
+						}
 					} else if !streamOut[op] {
 						r.Files[path] = c
 					}
